@@ -732,6 +732,25 @@ func GenZoo(t *tape.Tape) *Query {
 		}
 		q.Grid = append(q.Grid, row)
 	}
+	if t.Bool(1, 3) {
+		// shared objects: the same pointer at more than one index of a list
+		// (the one author of several comments)
+		if n := len(q.Animals); n > 0 {
+			q.Animals = append(q.Animals, q.Animals[t.Draw(n)])
+		}
+		if n := len(q.Things); n > 0 {
+			q.Things = append(q.Things, q.Things[t.Draw(n)], q.Things[t.Draw(n)])
+		}
+		if k := q.Keepers[0]; k != nil && len(k.Pets) > 0 {
+			k.Pets = append(k.Pets, k.Pets[t.Draw(len(k.Pets))])
+		}
+		if n := len(q.Grid); n > 0 && len(q.Grid[0]) > 0 {
+			q.Grid[0] = append(q.Grid[0], q.Grid[0][0])
+		}
+		if n := len(q.Keepers); n > 1 && q.Keepers[n-1] != nil {
+			q.Keepers = append(q.Keepers, q.Keepers[t.Draw(n-1)])
+		}
+	}
 	for i := 0; i < t.Draw(4); i++ {
 		q.Tags = append(q.Tags, "tag"+strconv.Itoa(i))
 		q.Nums = append(q.Nums, i*7)
